@@ -338,3 +338,173 @@ package parser
 //@   invariant stackSize(stack) == stackSize(stack[0:len(stack) - pcountFrom(n_RenderOperator.Props, i + 1)]) + psizeFrom(n_RenderOperator.Props, i + 1)
 //@   invariant stackSize(stack[0:len(stack) - pcountFrom(n_RenderOperator.Props, i + 1)]) + psizeFrom(n_RenderOperator.Props, 0) + 0 < variant(1)
 //@   decreases i + 1
+
+// ---------------------------------------------------------------- parser.go: cursor, errors, splits
+
+//@ func parser.isNotFound
+//@   use perr
+//@   trusted errors.As(err, new(notFoundError)): follows Unwrap chains and the members of errors.Join (nf)
+//@   ensures result == nf(err)
+
+//@ func parser.makeErrorOpaque
+//@   use perr
+//@   trusted stores into the cloned slice of a joined error (outside the verified subset); its effect is: nil stays nil, anything else is no longer classified not-found
+//@   ensures (result == nil) == (err == nil) && !nf(result)
+
+//@ func parser.joinErrors
+//@   use perr
+//@   trusted flattens joined errors with append(errorList, unwrapper.Unwrap()...); not yet verified
+//@   ensures (result == nil) == allNilL(args, len(args)) && nf(result) == nfL(args, len(args))
+
+//@ func parser.(TokenKind).String
+//@   trusted generated by stringer; returns some text
+
+//@ func parser.formatToken
+//@   use perr
+//@   requires tokIn(source, tok)
+
+//@ func parser.(*parser).next
+//@   use perr
+//@   requires p != nil && pOK(p.pos, len(p.tokens))
+//@   ensures pOK(p.pos, len(p.tokens))
+//@   ensures @some: result1 ==> old(p.pos) < len(p.tokens) && p.pos == old(p.pos) + 1 && result0 == p.tokens[old(p.pos)]
+//@   ensures @eof: !result1 ==> old(p.pos) >= len(p.tokens) && p.pos == len(p.tokens) + 1 && result0 == eofToken(p.source)
+//@   assigns p.pos
+
+//@ func parser.(*parser).prev
+//@   inline
+//@   requires p != nil
+//@   ensures p.pos == ite(old(p.pos) > 0 && old(p.pos) <= len(p.tokens), old(p.pos) - 1, old(p.pos))
+//@   assigns p.pos
+
+//@ func parser.(*parser).endSplit
+//@   use perr
+//@   requires p != nil && 0 <= p.pos && toksIn(p.source, p.tokens)
+//@   ensures (result == nil) == (p.splitKind != 0 && p.pos >= len(p.tokens)) && !nf(result)
+
+//@ func parser.(*parser).splitSemi
+//@   use perr
+//@   fresh
+//@   requires p != nil && pOK(p.pos, len(p.tokens)) && p.pos <= len(p.tokens)
+//@   ensures pOK(p.pos, len(p.tokens)) && old(p.pos) <= p.pos
+//@   ensures @sub: result != nil && result >= old(alloc()) && result < alloc() && result.source == p.source && result.pos == 0 && result.splitKind == TokenSemi
+//@   ensures @range: result.tokens == p.tokens[old(p.pos):cur(p.pos, len(p.tokens))]
+//@   ensures @stop: p.pos < len(p.tokens) ==> p.tokens[p.pos].Kind == TokenSemi
+//@   ensures @nosemi: forall(j, 0, len(result.tokens), result.tokens[j].Kind != TokenSemi)
+//@   assigns p.pos
+//@ loop 1
+//@   invariant pOK(p.pos, len(p.tokens)) && start <= p.pos && p.pos <= len(p.tokens)
+//@   invariant forall(j, start, p.pos, p.tokens[j].Kind != TokenSemi)
+//@   decreases len(p.tokens) + 1 - p.pos
+
+//@ func parser.(*parser).split
+//@   use perr
+//@   fresh
+//@   requires p != nil && pOK(p.pos, len(p.tokens)) && p.pos <= len(p.tokens)
+//@   ensures pOK(p.pos, len(p.tokens)) && old(p.pos) <= p.pos
+//@   ensures @sub: result != nil && result >= old(alloc()) && result < alloc() && result.source == p.source && result.pos == 0 && result.splitKind == search
+//@   ensures @range: result.tokens == p.tokens[old(p.pos):cur(p.pos, len(p.tokens))]
+//@   assigns p.pos
+//@ loop 1
+//@   invariant pOK(p.pos, len(p.tokens)) && start <= p.pos && p.pos <= len(p.tokens)
+//@   decreases len(p.tokens) + 1 - p.pos
+//@ loop 2
+//@   invariant pOK(p.pos, len(p.tokens)) && start <= p.pos && p.pos <= len(p.tokens)
+//@   decreases len(stack)
+
+//@ func parser.(*parser).ident
+//@   use perr
+//@   requires p != nil && pOK(p.pos, len(p.tokens)) && toksIn(p.source, p.tokens)
+//@   ensures pOK(p.pos, len(p.tokens))
+//@   ensures @notfound: result1 != nil ==> result0 == nil && nf(result1) && cur(p.pos, len(p.tokens)) == old(cur(p.pos, len(p.tokens)))
+//@   ensures @found: result1 == nil ==> typeis(result0, "Ident") && old(p.pos) < len(p.tokens) && p.pos == old(p.pos) + 1 && (p.tokens[old(p.pos)].Kind == TokenIdentifier || p.tokens[old(p.pos)].Kind == TokenQuotedIdentifier)
+//@   ensures @fields: result1 == nil ==> result0.Name == p.tokens[old(p.pos)].Value && result0.NameSpan == p.tokens[old(p.pos)].Span && result0.Quoted == (p.tokens[old(p.pos)].Kind == TokenQuotedIdentifier)
+//@   assigns p.pos
+
+// ---------------------------------------------------------------- parser.go: expressions
+
+//@ func parser.operatorPrecedence
+//@   use perr
+//@   ensures result == opPrec(op)
+
+//@ func parser.(*parser).qualifiedIdent
+//@   use perr expr
+//@   requires p != nil && pOK(p.pos, len(p.tokens)) && toksIn(p.source, p.tokens)
+//@   ensures pOK(p.pos, len(p.tokens)) && old(cur(p.pos, len(p.tokens))) <= cur(p.pos, len(p.tokens))
+//@   ensures @notfound: nf(result1) ==> cur(p.pos, len(p.tokens)) == old(cur(p.pos, len(p.tokens))) && result0 == nil
+//@   ensures @wf: result1 == nil ==> exprWF(result0) && typeis(result0, "QualifiedIdent")
+//@   assigns p.pos
+//@ loop 1
+//@   invariant pOK(p.pos, len(p.tokens)) && old(cur(p.pos, len(p.tokens))) <= cur(p.pos, len(p.tokens))
+//@   invariant len(qid.Parts) > 0 && identsWFL(qid.Parts, len(qid.Parts))
+//@   decreases len(p.tokens) + 1 - p.pos
+
+//@ func parser.(*parser).innerPrimaryExpr
+//@   use perr expr
+//@   requires p != nil && pOK(p.pos, len(p.tokens)) && toksIn(p.source, p.tokens)
+//@   ensures pOK(p.pos, len(p.tokens)) && old(cur(p.pos, len(p.tokens))) <= cur(p.pos, len(p.tokens))
+//@   ensures @notfound: nf(result1) ==> cur(p.pos, len(p.tokens)) == old(cur(p.pos, len(p.tokens)))
+//@   ensures @wf: result1 == nil ==> exprWF(result0)
+//@   assigns p.pos
+//@   decreases remTok(p.pos, len(p.tokens)), 2
+
+//@ func parser.(*parser).primaryExpr
+//@   use perr expr
+//@   requires p != nil && pOK(p.pos, len(p.tokens)) && toksIn(p.source, p.tokens)
+//@   ensures pOK(p.pos, len(p.tokens)) && old(cur(p.pos, len(p.tokens))) <= cur(p.pos, len(p.tokens))
+//@   ensures @notfound: nf(result1) ==> cur(p.pos, len(p.tokens)) == old(cur(p.pos, len(p.tokens)))
+//@   ensures @wf: result1 == nil ==> exprWF(result0)
+//@   assigns p.pos
+//@   decreases remTok(p.pos, len(p.tokens)), 3
+
+//@ func parser.(*parser).unaryExpr
+//@   use perr expr
+//@   requires p != nil && pOK(p.pos, len(p.tokens)) && toksIn(p.source, p.tokens)
+//@   ensures pOK(p.pos, len(p.tokens)) && old(cur(p.pos, len(p.tokens))) <= cur(p.pos, len(p.tokens))
+//@   ensures @notfound: nf(result1) ==> cur(p.pos, len(p.tokens)) == old(cur(p.pos, len(p.tokens)))
+//@   ensures @wf: result1 == nil ==> exprWF(result0)
+//@   assigns p.pos
+//@   decreases remTok(p.pos, len(p.tokens)), 4
+
+//@ func parser.(*parser).expr
+//@   use perr expr
+//@   requires p != nil && pOK(p.pos, len(p.tokens)) && toksIn(p.source, p.tokens)
+//@   ensures pOK(p.pos, len(p.tokens)) && old(cur(p.pos, len(p.tokens))) <= cur(p.pos, len(p.tokens))
+//@   ensures @notfound: nf(result1) ==> cur(p.pos, len(p.tokens)) == old(cur(p.pos, len(p.tokens)))
+//@   ensures @wf: result1 == nil ==> exprWF(result0)
+//@   assigns p.pos
+//@   decreases remTok(p.pos, len(p.tokens)), 6
+
+//@ func parser.(*parser).exprBinaryTrail
+//@   use perr expr
+//@   requires p != nil && pOK(p.pos, len(p.tokens)) && toksIn(p.source, p.tokens)
+//@   ensures pOK(p.pos, len(p.tokens)) && old(cur(p.pos, len(p.tokens))) <= cur(p.pos, len(p.tokens))
+//@   ensures @notfound: !nf(result1)
+//@   ensures @wf: result1 == nil && exprWF(x) ==> exprWF(result0)
+//@   ensures @progress: old(nextPrec(p.tokens, p.pos)) >= 0 && old(nextPrec(p.tokens, p.pos)) >= minPrecedence ==> cur(p.pos, len(p.tokens)) > old(cur(p.pos, len(p.tokens)))
+//@   assigns p.pos
+//@   decreases remTok(p.pos, len(p.tokens)), 5
+//@ loop 1
+//@   invariant pOK(p.pos, len(p.tokens)) && old(cur(p.pos, len(p.tokens))) <= cur(p.pos, len(p.tokens)) && !nf(finalError)
+//@   invariant finalError == nil && exprWF(old(x)) ==> exprWF(x)
+//@   invariant old(nextPrec(p.tokens, p.pos)) >= 0 && old(nextPrec(p.tokens, p.pos)) >= minPrecedence ==> cur(p.pos, len(p.tokens)) > old(cur(p.pos, len(p.tokens))) || p.pos == old(p.pos)
+//@   decreases len(p.tokens) + 1 - p.pos
+//@ loop 2
+//@   invariant pOK(p.pos, len(p.tokens)) && old(cur(p.pos, len(p.tokens))) < cur(p.pos, len(p.tokens)) && !nf(finalError)
+//@   invariant finalError == nil && exprWF(old(x)) ==> exprWF(x) && exprWF(y)
+//@   invariant len(p.tokens) + 1 - p.pos < variant(1)
+//@   decreases remTok(p.pos, len(p.tokens))
+
+//@ func parser.(*parser).exprList
+//@   use perr expr
+//@   requires p != nil && pOK(p.pos, len(p.tokens)) && toksIn(p.source, p.tokens)
+//@   ensures pOK(p.pos, len(p.tokens)) && old(cur(p.pos, len(p.tokens))) <= cur(p.pos, len(p.tokens))
+//@   ensures @notfound: nf(result1) ==> cur(p.pos, len(p.tokens)) == old(cur(p.pos, len(p.tokens))) && len(result0) == 0
+//@   ensures @wf: result1 == nil ==> len(result0) >= 1 && exprWFL(result0, len(result0))
+//@   ensures @ok.restore: nf(err) ==> p.pos == restorePos
+//@   assigns p.pos
+//@   decreases remTok(p.pos, len(p.tokens)), 7
+//@ loop 1
+//@   invariant pOK(p.pos, len(p.tokens)) && old(cur(p.pos, len(p.tokens))) <= cur(p.pos, len(p.tokens))
+//@   invariant len(result) >= 1 && exprWFL(result, len(result))
+//@   decreases len(p.tokens) + 1 - p.pos
